@@ -351,6 +351,12 @@ def order_violations(expanded, dic):
     walk(expanded)
 
     def ident(x):
+        if isinstance(x, str) and "{" in x:      # the range spelling stem{a:b} denotes its last member
+            try:
+                stem, ix = x.split("{")
+                return stem + str(int(ix.rstrip("}").split(":")[1]) - 1)
+            except (ValueError, IndexError):
+                return None
         return x if isinstance(x, str) else x.get("id") if isinstance(x, dict) else None
 
     for i, lit in lits.items():
@@ -428,7 +434,7 @@ def update_violations(dic):
     import torch
 
     bad = []
-    params = [o for o in dic.values() if type(o).__name__ == "Parameter" and o.tensor.is_floating_point()]
+    params = [o for o in dic.values() if type(o).__name__ == "Parameter" and o.tensor.dtype != torch.bool]
     dists = [o for o in dic.values() if type(o).__name__ == "Distribution"]
     if not dists:
         return bad
@@ -438,7 +444,7 @@ def update_violations(dic):
     except Exception:  # noqa: BLE001
         return bad
     for n, p in enumerate(params):
-        p.tensor = p.tensor.detach() * 1.5 + 0.25 * (n + 1)
+        p.tensor = (p.tensor.detach() * 1.5 + 0.25 * (n + 1)) if p.tensor.is_floating_point() else (p.tensor.detach() + (n + 1))
     for d in dists:
         try:
             args = {}
@@ -797,6 +803,8 @@ def small_family():
     out.append(([{"id": "t", "type": "VSelf", "inner": {"id": "m", "type": "VOne", "x": leaf("t")}}], ("dup-small", True, {})))
     out += tree_family()
     out += same_class_family()
+    out += range_family()
+    out += value_type_family()
     out += falsy_family()
     # ids that are falsy / odd strings themselves
     for odd in ("", "0", "False", "None", " a b ", "é.ü"):
@@ -811,6 +819,81 @@ def small_family():
     out.append(([{"id": "p", "type": "VOne", "x": "p"}], ("ref-to-enclosing", True, {})))
     out.append(([{"id": "p", "type": "VPair", "a": leaf("a"), "b": "a"}], None))
     out.append(([{"id": "p", "type": "VRev", "a": leaf("a"), "b": "a"}], ("forward", True, {})))
+    return out
+
+
+def value_type_family():
+    """a registered parameter of every value TYPE (int64 as written without a decimal point, bool, float32, float64, explicit
+    long, 0-d, empty) REFERRED TO BY ID from every kind of consumer (each Distribution argument, x, ViewParameter,
+    CatParameter, TransformedParameter), alone and shared by two consumers: after the load every holder must hold the
+    registered instance whatever the type of its value (a consumer that converts the value must not keep a private copy
+    under the same id)"""
+    out = []
+    forms = [{"tensor": [0]}, {"tensor": [1, 2]}, {"tensor": [True, False]}, {"tensor": [0.5]},
+             {"tensor": [0.5], "dtype": "torch.float64"}, {"tensor": [3], "dtype": "torch.long"}, {"tensor": 1.5}, {"tensor": 2},
+             {"tensor": []}, {"tensor": [0.25, 0.5], "dtype": "torch.float16"}]
+    y = {"id": "y", "type": "Parameter", "tensor": [0.5, 1.5], "dtype": "torch.float64"}
+    s2 = {"id": "s", "type": "Parameter", "tensor": [2.0]}
+    for f in forms:
+        m = dict({"id": "m", "type": "Parameter"}, **f)
+        oned = isinstance(f["tensor"], list) and len(f["tensor"]) > 0
+        dist = lambda i, x, pr, d="torch.distributions.Normal": {"id": i, "type": "Distribution", "distribution": d,  # noqa: E731
+                                                                  "x": x, "parameters": pr}
+        out.append(([copy.deepcopy(m), dist("d", copy.deepcopy(y), {"loc": "m", "scale": 1.0})], None))
+        out.append(([copy.deepcopy(m), copy.deepcopy(s2), dist("d", copy.deepcopy(y), {"loc": 0.0, "scale": "m"})], None))
+        out.append(([copy.deepcopy(m), dist("d", copy.deepcopy(y), {"concentration": "m", "rate": "m"}, "torch.distributions.Gamma")], None))
+        out.append(([copy.deepcopy(m), dist("d", "m", {"loc": 0.0, "scale": 1.0})], None))
+        out.append(([copy.deepcopy(m), copy.deepcopy(y), dist("d", "y", {"loc": "m", "scale": 1.0}),
+                     dist("d2", "y", {"loc": "m", "scale": {"id": "s3", "type": "Parameter", "tensor": [3.0]}})], None))
+        out.append(([copy.deepcopy(m), {"id": "t", "type": "TransformedParameter", "transform": "torch.distributions.ExpTransform", "x": "m"}], None))
+        if oned:
+            out.append(([copy.deepcopy(m), {"id": "v", "type": "ViewParameter", "indices": "0:1", "parameter": "m"},
+                         dist("d", copy.deepcopy(y), {"loc": "m", "scale": 1.0})], None))
+            out.append(([copy.deepcopy(m), {"id": "c", "type": "CatParameter", "parameters": ["m", copy.deepcopy(s2)]},
+                         dist("d", copy.deepcopy(y), {"loc": 0.0, "scale": "m"})], None))
+    return out
+
+
+def range_family():
+    """the reference SPELLING `stem{a:b}` (as in examples/advi/planar-flow.json "w.{0:3}"): it denotes the last member but
+    every member stem+a … stem+(b-1) has to be defined BEFORE the reference; each member position (first / middle / last /
+    all) undefined, with and without an offset, as a child, in a list slot, at top level, over plate clones (star and
+    ${var} forms), defined only later, and through a real class"""
+    out = []
+    w = lambda i: {"id": f"w.{i}", "type": "VLeaf"}  # noqa: E731
+    one = lambda ref: {"id": "p", "type": "VOne", "x": ref}  # noqa: E731
+    bad = lambda pos: ("dangling-range:" + pos, True, {})  # noqa: E731
+    for defined, ref, pos in (((0, 1, 2), "w.{0:3}", None), ((1, 2), "w.{0:3}", "first"), ((0, 2), "w.{0:3}", "middle"),
+                              ((0, 1), "w.{0:3}", "last"), ((), "w.{0:3}", "all"), ((0, 1, 2, 3), "w.{1:3}", None),
+                              ((0, 2, 3), "w.{1:3}", "first"), ((0, 1, 3), "w.{1:3}", "last"),
+                              ((0, 1, 2, 3, 4), "w.{0:5}", None), ((0, 1, 3, 4), "w.{0:5}", "middle"),
+                              ((9, 10, 11), "w.{9:12}", None), ((9, 11), "w.{9:12}", "middle"), ((10, 11), "w.{9:12}", "first")):
+        tag = bad(pos) if pos else None
+        lits = [w(i) for i in defined]
+        out.append((lits + [one(ref)], tag))
+        out.append((lits + [{"id": "p", "type": "VMany", "xs": ([w(7)] if 7 not in defined else []) + [ref]}], tag))
+        out.append((lits + [ref], tag))
+        out.append(([lits[::-1] + [{"id": "p", "type": "VPair", "a": ref, "b": ref}]], tag))
+    # members defined only AFTER the reference
+    out.append(([w(0), w(1), one("w.{0:3}"), w(2)], ("forward", True, {})))
+    out.append(([w(1), w(2), one("w.{0:3}"), w(0)], ("forward", True, {})))
+    # over plate clones
+    for form, var in (("w.*", None), ("w.${i}", "i")):
+        def plate(rng_, form=form, var=var):
+            p = {"type": "Plate", "range": rng_, "object": {"id": form, "type": "VLeaf"}}
+            if var:
+                p["var"] = var
+            return p
+        out.append(([[plate("0:3")], one("w.{0:3}")], None))
+        out.append(([[plate("1:3")], one("w.{0:3}")], bad("first")))
+        out.append(([[plate("0:2")], one("w.{0:3}")], bad("last")))
+        out.append(([[plate("0:1"), plate("2:3")], one("w.{0:3}")], bad("middle")))
+        out.append(([[plate("0:1"), plate("2:3")], one("w.{2:3}")], None))
+    # a real class: CatParameter over a range of parameters (resolves to the last one)
+    q = lambda i: {"id": f"q.{i}", "type": "Parameter", "tensor": [float(i)]}  # noqa: E731
+    out.append(([q(0), q(1), q(2), {"id": "c", "type": "CatParameter", "parameters": ["q.{0:3}", "q.0"]}], None))
+    out.append(([q(1), q(2), {"id": "c", "type": "CatParameter", "parameters": ["q.{0:3}", "q.1"]}], bad("first")))
+    out.append(([q(0), q(2), {"id": "v", "type": "ViewParameter", "indices": "0:1", "parameter": "q.{0:3}"}], bad("middle")))
     return out
 
 
